@@ -15,7 +15,8 @@
 EXTENDS Naturals, FiniteSets, TLC
 
 CONSTANTS Calls, Credit, MayLose,    \* MayLose: the connection may be lost
-          Hangs                     \* calls whose handler never finishes by itself
+          Hangs,                    \* calls whose handler never finishes by itself
+          Hostile                   \* streams driven by a hostile peer: may carry garbage, stall, reset, stop
 
 VARIABLES
   cs,        \* caller stage: "idle" | "waiting" | "open" | "sent" | "finished" | "ok" | "err" | "abandoned"
@@ -25,29 +26,37 @@ VARIABLES
   credit,    \* streams the caller may still open
   returned,  \* streams whose credit the callee gave back
   invoked,   \* invoked[q]: how often the service was called for q
-  lost       \* the connection is gone
+  lost,      \* the connection is gone
+  bad        \* bad[q]: what was written on q is not a well-formed request
 
-vars == <<cs, ss, reset, stop, credit, returned, invoked, lost>>
+vars == <<cs, ss, reset, stop, credit, returned, invoked, lost, bad>>
 
 Init ==
   /\ cs = [q \in Calls |-> "idle"] /\ ss = [q \in Calls |-> "none"]
   /\ reset = [q \in Calls |-> FALSE] /\ stop = [q \in Calls |-> FALSE]
   /\ credit = Credit /\ returned = {} /\ invoked = [q \in Calls |-> 0] /\ lost = FALSE
+  /\ bad = [q \in Calls |-> FALSE]
 
 Live == ~lost
 
 Issue(q) == Live /\ cs[q] = "idle" /\ cs' = [cs EXCEPT ![q] = "waiting"]
-            /\ UNCHANGED <<ss, reset, stop, credit, returned, invoked, lost>>
+            /\ UNCHANGED <<ss, reset, stop, credit, returned, invoked, lost, bad>>
 
 OpenBi(q) == /\ Live /\ cs[q] = "waiting" /\ credit > 0
              /\ cs' = [cs EXCEPT ![q] = "open"] /\ credit' = credit - 1
-             /\ UNCHANGED <<ss, reset, stop, returned, invoked, lost>>
+             /\ UNCHANGED <<ss, reset, stop, returned, invoked, lost, bad>>
 
 WritePart(q) == /\ Live /\ cs[q] = "open" /\ cs' = [cs EXCEPT ![q] = "sent"]
-                /\ UNCHANGED <<ss, reset, stop, credit, returned, invoked, lost>>
+                /\ UNCHANGED <<ss, reset, stop, credit, returned, invoked, lost, bad>>
+
+(* a hostile peer writes bytes that are not a request (bad preamble, absurd length prefix, *)
+(* invalid header, truncated message then finish, ...)                                    *)
+Garbage(q) == /\ Live /\ q \in Hostile /\ cs[q] \in {"open", "sent"} /\ ~bad[q]
+              /\ bad' = [bad EXCEPT ![q] = TRUE] /\ cs' = [cs EXCEPT ![q] = "sent"]
+              /\ UNCHANGED <<ss, reset, stop, credit, returned, invoked, lost>>
 
 Finish(q) == /\ Live /\ cs[q] = "sent" /\ cs' = [cs EXCEPT ![q] = "finished"]
-             /\ UNCHANGED <<ss, reset, stop, credit, returned, invoked, lost>>
+             /\ UNCHANGED <<ss, reset, stop, credit, returned, invoked, lost, bad>>
 
 (* the caller drops the call: before, while or after the request is transmitted *)
 Abandon(q) ==
@@ -55,41 +64,41 @@ Abandon(q) ==
   /\ cs' = [cs EXCEPT ![q] = "abandoned"]
   /\ reset' = [reset EXCEPT ![q] = cs[q] \in {"open", "sent"}]
   /\ stop' = [stop EXCEPT ![q] = cs[q] \in {"open", "sent", "finished"}]
-  /\ UNCHANGED <<ss, credit, returned, invoked, lost>>
+  /\ UNCHANGED <<ss, credit, returned, invoked, lost, bad>>
 
 (* the callee sees the stream once something was sent on it *)
 Accept(q) == /\ Live /\ ss[q] = "none" /\ (cs[q] \in {"sent", "finished"} \/ (cs[q] = "abandoned" /\ (reset[q] \/ stop[q]) ))
              /\ ss' = [ss EXCEPT ![q] = "reading"]
-             /\ UNCHANGED <<cs, reset, stop, credit, returned, invoked, lost>>
+             /\ UNCHANGED <<cs, reset, stop, credit, returned, invoked, lost, bad>>
 
 (* a complete request reaches the service, once *)
-Invoke(q) == /\ Live /\ ss[q] = "reading" /\ ~reset[q]
+Invoke(q) == /\ Live /\ ss[q] = "reading" /\ ~reset[q] /\ ~bad[q]
              /\ cs[q] \in {"finished", "ok", "err"} \/ (cs[q] = "abandoned" /\ ~reset[q] /\ stop[q])
              /\ ss' = [ss EXCEPT ![q] = "handling"]
              /\ invoked' = [invoked EXCEPT ![q] = @ + 1]
-             /\ UNCHANGED <<cs, reset, stop, credit, returned, lost>>
+             /\ UNCHANGED <<cs, reset, stop, credit, returned, lost, bad>>
 
 (* an incomplete (reset) request is refused without reaching the service *)
-Refuse(q) == /\ Live /\ ss[q] = "reading" /\ reset[q]
+Refuse(q) == /\ Live /\ ss[q] = "reading" /\ (reset[q] \/ bad[q])
              /\ ss' = [ss EXCEPT ![q] = "refused"]
-             /\ UNCHANGED <<cs, reset, stop, credit, returned, invoked, lost>>
+             /\ UNCHANGED <<cs, reset, stop, credit, returned, invoked, lost, bad>>
 
 (* the callee notices the stop of its send side and drops the handler *)
 StopSeen(q) == /\ Live /\ ss[q] = "handling" /\ stop[q]
                /\ ss' = [ss EXCEPT ![q] = "cancelled"]
-               /\ UNCHANGED <<cs, reset, stop, credit, returned, invoked, lost>>
+               /\ UNCHANGED <<cs, reset, stop, credit, returned, invoked, lost, bad>>
 
 Respond(q) == /\ Live /\ ss[q] = "handling" /\ q \notin Hangs
               /\ ss' = [ss EXCEPT ![q] = "responded"]
-              /\ UNCHANGED <<cs, reset, stop, credit, returned, invoked, lost>>
+              /\ UNCHANGED <<cs, reset, stop, credit, returned, invoked, lost, bad>>
 
 CallerGets(q) == /\ Live /\ cs[q] = "finished" /\ ss[q] = "responded"
                  /\ cs' = [cs EXCEPT ![q] = "ok"]
-                 /\ UNCHANGED <<ss, reset, stop, credit, returned, invoked, lost>>
+                 /\ UNCHANGED <<ss, reset, stop, credit, returned, invoked, lost, bad>>
 
 CallerFails(q) == /\ cs[q] \in {"waiting", "open", "sent", "finished"} /\ (lost \/ ss[q] \in {"refused", "cancelled"})
                   /\ cs' = [cs EXCEPT ![q] = "err"]
-                  /\ UNCHANGED <<ss, reset, stop, credit, returned, invoked, lost>>
+                  /\ UNCHANGED <<ss, reset, stop, credit, returned, invoked, lost, bad>>
 
 (* both directions of the stream are done on the callee: the credit goes back *)
 ReturnCredit(q) ==
@@ -97,7 +106,7 @@ ReturnCredit(q) ==
   /\ ss[q] \in {"responded", "refused", "cancelled"}
   /\ cs[q] \in {"ok", "err", "abandoned"}
   /\ returned' = returned \cup {q} /\ credit' = credit + 1
-  /\ UNCHANGED <<cs, ss, reset, stop, invoked, lost>>
+  /\ UNCHANGED <<cs, ss, reset, stop, invoked, lost, bad>>
 
 (* a stream that was opened but never carried data is still reset on drop *)
 ReturnSilent(q) ==
@@ -107,16 +116,16 @@ ReturnSilent(q) ==
 
 Lose == MayLose /\ ~lost /\ lost' = TRUE
         /\ ss' = [q \in Calls |-> IF ss[q] = "handling" THEN "cancelled" ELSE ss[q]]
-        /\ UNCHANGED <<cs, reset, stop, credit, returned, invoked>>
+        /\ UNCHANGED <<cs, reset, stop, credit, returned, invoked, bad>>
 
 Next == Lose \/ \E q \in Calls :
-          \/ Issue(q) \/ OpenBi(q) \/ WritePart(q) \/ Finish(q) \/ Abandon(q) \/ Accept(q) \/ Invoke(q)
+          \/ Issue(q) \/ OpenBi(q) \/ WritePart(q) \/ Garbage(q) \/ Finish(q) \/ Abandon(q) \/ Accept(q) \/ Invoke(q)
           \/ Refuse(q) \/ StopSeen(q) \/ Respond(q) \/ CallerGets(q) \/ CallerFails(q) \/ ReturnCredit(q)
 Spec == Init /\ [][Next]_vars
 
 -----------------------------------------------------------------------------
 AtMostOnce == \A q \in Calls : invoked[q] <= 1
-OnlyCompleteRequests == \A q \in Calls : invoked[q] = 1 => ~reset[q]
+OnlyCompleteRequests == \A q \in Calls : invoked[q] = 1 => ~reset[q] /\ ~bad[q]
 OkMeansHandled == \A q \in Calls : cs[q] = "ok" => invoked[q] = 1 /\ ss[q] = "responded"
 Quiescent == ~ENABLED Next
 (* C12 at quiescence: no handler of an abandoned call is still running, all credit is back *)
@@ -126,7 +135,10 @@ NoLeak == (Quiescent /\ ~lost) =>
 NoStuckCaller == Quiescent => \A q \in Calls :
                     cs[q] \in {"idle", "ok", "err", "abandoned"} \/ (q \in Hangs /\ ss[q] = "handling")
                     \/ (cs[q] = "waiting" /\ credit = 0)
+(* C06: garbage never reaches the service, and whatever the hostile streams do, a well-formed   *)
+(* call that got a stream and whose handler answers completes                                  *)
+GarbageNeverInvoked == \A q \in Calls : bad[q] => invoked[q] = 0
 CreditBound == credit <= Credit /\ credit >= 0
-Invariants == AtMostOnce /\ OnlyCompleteRequests /\ OkMeansHandled /\ NoOrphanHandler /\ NoLeak
+Invariants == GarbageNeverInvoked /\ AtMostOnce /\ OnlyCompleteRequests /\ OkMeansHandled /\ NoOrphanHandler /\ NoLeak
               /\ NoStuckCaller /\ CreditBound
 =============================================================================
